@@ -24,10 +24,12 @@ EXPLANATION = ("Setting values are opaque symbols: objects whose truth value and
 BOUNDS = {"quick": {"nesting": "depth 1 with all 2^7 subsets of named keys; depth 2 with all subsets of 3 keys per level (decimals, alias, factory_manager) "
                                "and of (atol, logger, float_type); depth 3 over 2 keys", "exits": "normal / exception at each level",
                     "assignment inside": "none, or to each of 4 keys"},
-          "thorough": {"nesting": "depth 2 over 4 keys per level; depth 3 over 3 keys"}}
+          "thorough": {"nesting": "quick + depth 2 over 4 and 5 keys per level; depth 3 over 3 keys; depth 4 over 2 keys; depth 5 over one key",
+                       "base state": "the factory manager either created or the lazily initialised default (None)"}}
 OUTSIDE = ["nesting deeper than the bound", "threads (the settings object is process-wide and not thread-safe by design)",
            "this is path exploration with symbolic data rather than arithmetic reasoning"]
-ASSUMPTIONS = ["values of float_type, logger and factory_manager are truthy objects", "at most one falsy value per setting"]
+ASSUMPTIONS = ["values of float_type, logger and factory_manager are truthy objects (the factory manager may also be the not-yet-created default None)",
+               "at most one falsy value per setting"]
 STUBS = ["opaque setting values with symbolic truthiness / equality", "Op.is_close observed through the shim's np.isclose model"]
 OB_BUDGET_S = {"quick": 240, "thorough": 1500}
 
@@ -147,7 +149,8 @@ def ob_nesting(depth, keys, assign_key, label):
         pre = eq_axioms(ops) + [z3.Or(*[z3.Not(e) for e in exc_at.values()])] if depth > 1 else eq_axioms(ops)
         # at most one level raises (an exception propagates through the outer levels anyway)
         pre = eq_axioms(ops) + [z3.Not(z3.And(a, b)) for a, b in itertools.combinations(exc_at.values(), 2)]
-        ins = {str(v): SymBool(v) for v in list(pres.values()) + list(exc_at.values())}
+        fm_unset = z3.Bool("base!factory_manager!unset")
+        ins = {str(v): SymBool(v) for v in list(pres.values()) + list(exc_at.values()) + [fm_unset]}
         for o in ops:
             if not z3.is_true(o.truthy):
                 ins[str(o.truthy)] = SymBool(o.truthy)
@@ -183,6 +186,8 @@ def ob_nesting(depth, keys, assign_key, label):
                         val[(o.key, o.tag)] = f"POOL[{k!r}][{idx}]"
             names = {lv: [k for k in keys if bool(v[str(pres[(lv, k)])])] for lv in range(depth)}
             raises = {lv: bool(v[str(exc_at[lv])]) for lv in range(depth)}
+            if bool(v[str(fm_unset)]):
+                val[("factory_manager", "base")] = "None"     # the lazily initialised default: no factory manager created yet
             lines.append("VAL = {" + ", ".join(f"{kt!r}: {src}" for kt, src in val.items()) + "}")
             lines.append(f"names = {names!r}; raises = {raises!r}; depth = {depth}; assign_key = {assign_key!r}; KEYS = {KEYS!r}")
             lines.append(REPLAY_PROGRAM)
@@ -197,6 +202,8 @@ def ob_nesting(depth, keys, assign_key, label):
             try:
                 for k in KEYS:
                     setattr(st, ATTR[k], base[k])
+                if bool(SymBool(fm_unset)):
+                    st._factory_manager = None
                 names = {lv: [k for k in keys if bool(SymBool(pres[(lv, k)]))] for lv in range(depth)}
                 raises = {lv: bool(SymBool(exc_at[lv])) for lv in range(depth)}
 
@@ -375,7 +382,13 @@ def obligations(tier, seed):
     obs.append(("depth3/alias+atol/assign-alias", ob_nesting(3, ("alias", "atol"), "alias", "depth3/alias+atol/assign-alias")))
     if tier != "quick":
         obs.append(("depth2/4keys", ob_nesting(2, ("decimals", "alias", "factory_manager", "rtol"), "decimals", "depth2/4keys")))
+        obs.append(("depth2/4keys-b", ob_nesting(2, ("float_type", "atol", "logger", "factory_manager"), "factory_manager", "depth2/4keys-b")))
+        obs.append(("depth2/5keys", ob_nesting(2, ("decimals", "alias", "factory_manager", "atol", "float_type"), None, "depth2/5keys")))
         obs.append(("depth3/3keys", ob_nesting(3, ("decimals", "alias", "factory_manager"), "alias", "depth3/3keys")))
+        obs.append(("depth3/3keys-b", ob_nesting(3, ("atol", "rtol", "logger"), "rtol", "depth3/3keys-b")))
+        obs.append(("depth4/2keys", ob_nesting(4, ("decimals", "factory_manager"), "decimals", "depth4/2keys")))
+        obs.append(("depth4/2keys-b", ob_nesting(4, ("alias", "atol"), None, "depth4/2keys-b")))
+        obs.append(("depth5/1key", ob_nesting(5, ("factory_manager",), "factory_manager", "depth5/1key")))
     obs.append(("observe/is_close", ob_is_close("observe/is_close")))
     obs.append(("observe/str", ob_str("observe/str")))
     return obs
